@@ -148,6 +148,8 @@ pub struct RandomDirector {
     downgrade: bool,
     force_drop: bool,
     reconnected_once: bool,
+    /// the benign continuation may reconnect once when nothing is in transit (see `pending`)
+    heal: bool,
     now_ms: u64,
     stalls: u32,
     /// probes run before the benign drain: PUBREL sweep (reveals the pending inbound QoS 2
@@ -166,6 +168,7 @@ impl RandomDirector {
         let mut d = Self::new(seed, p, rx, false);
         d.broker.has_session = true;
         d.probe = true;
+        d.heal = true;
         d
     }
 
@@ -196,6 +199,7 @@ impl RandomDirector {
             downgrade,
             force_drop: false,
             reconnected_once: false,
+            heal: false,
             now_ms: 0,
             stalls: 0,
             probe: false,
@@ -613,6 +617,10 @@ impl Director for RandomDirector {
             if !self.benign && self.chance(self.p.p_fault) {
                 return if self.chance(0.5) { IoDec::Eof } else { IoDec::Err };
             }
+            if self.benign && self.broker.closed && self.broker.outq.is_empty() {
+                // a broker that has received (or sent) DISCONNECT closes the network connection
+                return IoDec::Eof;
+            }
             return IoDec::Pending;
         }
         self.idle = 0;
@@ -737,9 +745,12 @@ impl Director for RandomDirector {
             if self.idle > 50 {
                 return PendDec::Cancel;
             }
-            // Nothing in transit although operations are outstanding: an answer was lost in the
-            // non-benign phase. The benign continuation recovers by reconnecting (resumed).
-            if self.idle > 2 && !self.reconnected_once {
+            // Nothing in transit although operations are outstanding. After a scripted prefix
+            // (behaviours of the specification, whose broker is not this one) an answer may simply
+            // never have been sent: the continuation recovers by reconnecting (resumed). After a
+            // random history the broker is this very model, which answers everything it received
+            // on a live connection: there a reconnect would hide a client that is stuck (C16).
+            if self.idle > 2 && !self.reconnected_once && self.heal {
                 self.reconnected_once = true;
                 self.force_drop = true;
                 return PendDec::Cancel;
@@ -748,7 +759,7 @@ impl Director for RandomDirector {
                 Some(w) if *w > view.now_ms => PendDec::Adv(*w),
                 Some(_) => PendDec::Adv(view.now_ms + 1000),
                 None => {
-                    self.force_drop = !self.reconnected_once;
+                    self.force_drop = !self.reconnected_once && self.heal;
                     self.reconnected_once = true;
                     PendDec::Cancel
                 }
